@@ -166,6 +166,33 @@ func runCLI(c *harness.Ctx) harness.Result {
 		if r.Intn(6) == 0 {
 			lists[[]string{"base", "diff_base"}[r.Intn(2)]] = []string{"p"}
 		}
+		// a second, different profile among the sources / as base: fewer columns, or the same
+		// sample type name listed twice by one of the two
+		profs := map[string]*profile.Profile{"p": p}
+		if r.Intn(4) == 0 && len(p.SampleType) >= 2 {
+			q := p.Copy()
+			k := 1 + r.Intn(len(q.SampleType)-1)
+			q.SampleType = q.SampleType[:k]
+			for _, sm := range q.Sample {
+				sm.Value = append([]int64(nil), sm.Value[:k]...)
+			}
+			first := p
+			if r.Intn(2) == 0 {
+				first = p.Copy()
+				first.SampleType[1].Type = first.SampleType[0].Type
+				first.SampleType[1].Unit = first.SampleType[0].Unit
+			}
+			profs["p"], profs["q"] = first, q
+			switch r.Intn(3) {
+			case 0:
+				srcs = []string{"p", "q"}
+			case 1:
+				srcs = []string{"q", "p"}
+			default:
+				lists[[]string{"base", "diff_base"}[r.Intn(2)]] = []string{"q"}
+			}
+			c.Stat("cli_mixed_sources", 1)
+		}
 		desc := fmt.Sprintf("%s %v %v %v %v srcs=%v %v", f, b, s, ints, floats, srcs, lists)
 		tried = append(tried, harness.Trunc(desc, 200))
 		c.Stat("cli_invocations", 1)
@@ -174,8 +201,8 @@ func runCLI(c *harness.Ctx) harness.Result {
 			st[k] = v
 		}
 		var obj interface{} = nil
-		sesn := &drv.Session{Flags: &drv.Flags{Bools: b, Strs: st, Ints: ints, Floats: floats, Lists: lists, Args: srcs}, Fetch: &drv.MapFetcher{Profiles: map[string]*profile.Profile{"p": p}}}
-		if r.Intn(4) == 0 {
+		sesn := &drv.Session{Flags: &drv.Flags{Bools: b, Strs: st, Ints: ints, Floats: floats, Lists: lists, Args: srcs}, Fetch: &drv.MapFetcher{Profiles: profs}}
+		if len(profs) == 1 && r.Intn(4) == 0 {
 			// the same profile fetched over HTTP by pprof's own fetcher (which also saves a local
 			// copy named after the profile's binary and sample types)
 			var buf bytes.Buffer
@@ -515,7 +542,7 @@ func init() {
 		CrashIsViolation: true,
 		CaseTimeout:      4 * time.Minute,
 		HangTries:        3,
-		Rule:             "a case that does not finish within 4 min in 3 of 3 fresh worker processes is a hang (violation); sessions have their own 3-of-3 rule at 30 s. odd-profile class (empty / 3000-byte / non-UTF8 / metacharacter strings, 1-2 character build ids, ids near 2^64, addresses 0 and max, inverted / zero / overlapping / whole-address-space mappings, MinInt64/MaxInt64 values and labels, line numbers 0 / negative / 2^33 / 2^40 / extreme next to start lines 0..10, unknown/empty units, 12 sample types, no samples, invalid drop_frames). part cli: 10 invocations per profile through the real driver: 19 report formats x hostile values for every option field (33 value classes incl. unbalanced regexps, 1e400, NaN, huge digit strings, unknown units, 79/81-byte and 80-120-byte non-ASCII strings) x granularity x symbolize modes x duplicate sources / base. part interactive: sessions of 4-40 lines (command grammar + noise + hostile assignments) in a fresh child process with per-line transcripts; the loop must consume every line; around lines that are certainly rejected a probe command must give identical answers and the rejection must be reported. part web: 7-25 handler invocations per fresh session over 11 endpoints x parameter soups (34 keys, hostile values, repeats, bad escapes, missing values); no handler panic, every response is output or an error report, a probe request keeps answering as in the pristine session. part exe: the real bin/pprof executable on odd profiles (exit status 0/1/2, no panic text on stderr). non-trivial = every case; distinct = case",
+		Rule:             "a case that does not finish within 4 min in 3 of 3 fresh worker processes is a hang (violation); sessions have their own 3-of-3 rule at 30 s. odd-profile class (empty / 3000-byte / non-UTF8 / metacharacter strings, 1-2 character build ids, ids near 2^64, addresses 0 and max, inverted / zero / overlapping / whole-address-space mappings, MinInt64/MaxInt64 values and labels, line numbers 0 / negative / 2^33 / 2^40 / extreme next to start lines 0..10, unknown/empty units, 12 sample types, no samples, invalid drop_frames). part cli: 10 invocations per profile through the real driver: 19 report formats x hostile values for every option field (33 value classes incl. unbalanced regexps, 1e400, NaN, huge digit strings, unknown units, 79/81-byte and 80-120-byte non-ASCII strings) x granularity x symbolize modes x duplicate sources / base, or a second profile with fewer columns next to one that lists a sample type name twice. part interactive: sessions of 4-40 lines (command grammar + noise + hostile assignments) in a fresh child process with per-line transcripts; the loop must consume every line; around lines that are certainly rejected a probe command must give identical answers and the rejection must be reported. part web: 7-25 handler invocations per fresh session over 11 endpoints x parameter soups (34 keys, hostile values, repeats, bad escapes, missing values); no handler panic, every response is output or an error report, a probe request keeps answering as in the pristine session. part exe: the real bin/pprof executable on odd profiles (exit status 0/1/2, no panic text on stderr). non-trivial = every case; distinct = case",
 		Assumptions:      []string{"graphviz is not installed: formats needing dot legitimately end in an error", "'never hangs' is restated as a 30 s per-session watchdog (>= 1000x the median session time); a session that exceeds it in 3 of 3 runs is reported as a hang, otherwise inconclusive", "handlers are invoked directly so that a handler panic reaches the monitor instead of net/http's recover"},
 		Parts: []harness.Part{
 			{Name: "cli", Quick: 2500, Thor: 100000, Run: runCLI},
